@@ -649,6 +649,7 @@ _X = {
     "XFallback": ["fallback_apply"], "XBulkhead": ["bulkhead_pre_execute"], "XRetryLoop": ["retry_loop_iteration"],
     "XAdmit": ["breaker_pre_execute", "breaker_on_success", "breaker_on_failure", "limiter_apply"],
     "XBreaker": ["brk_record_success", "brk_record_failure", "brk_record_result"],
+    "XDelayable": ["compute_delay"],
 }
 def _extend(pid, areas, link=True):
     c = PROPS[pid]
@@ -666,8 +667,10 @@ _extend("C10", ["XFallback", "XBase"])
 _extend("C11", ["XCache"])
 _extend("C15", ["XExecution"], link=False)
 _extend("C16", ["XRetry", "XCache", "XFallback", "XRetryLoop", "XAdmit"])
-_extend("C04", ["XAdmit", "XBase", "XBreaker"])
-_extend("C03", ["XBreaker"], link=False)
+_extend("C04", ["XAdmit", "XBase", "XBreaker", "XDelayable"])
+_extend("C03", ["XBreaker", "XDelayable"], link=False)
+_extend("C13", ["XDelayable"], link=False)
+_extend("C09", ["XDelayable"], link=False)
 _extend("C05", ["XAdmit"], link=False)
 _extend("C17", ["XExecution"])
 PROPS["C02"]["required_theorems"] += ["Failsafe.Props.C02." + t for t in ["kernel_exceeded_iff", "kernel_result", "kernel_result_not_success", "kernel_listeners", "model_retry_decision_is_the_codes", "model_retry_loop_is_the_codes", "kernel_loop_early_exits", "kernel_loop_continues_only_after_init"]]
